@@ -48,9 +48,9 @@ def plan(tier):
                 "lattice, so the explored set is closed); non-trivial = at least two trains spike",
         "exhaustive": True,
         "assumptions": ["spike times restricted to the dyadic lattice; shifts and power-of-two "
-                        "scale factors are exactly representable so that ties are preserved and "
-                        "results must be bit-identical; factor 3 and the reflection are compared "
-                        "with tolerance 1e-10",
+                        "scale factors are exactly representable so that ties are preserved: the "
+                        "time axis must be reproduced bit for bit and values within 1e-12; factor "
+                        "3 and the reflection are compared with tolerance 1e-10",
                         "pyx configuration = rendered .pyx sources"],
         "explanation": "metamorphic relations from the statement, no reference model: transformed "
                        "time axis, equal values/multiplicities/scalars; reflection reverses arrays, "
@@ -58,14 +58,21 @@ def plan(tier):
     }
 
 
-def _cmp(a, b, exact):
+TIGHT = 1e-12
+
+
+def _cmp(a, b, exact, values=False):
+    """exact: the time axis must be reproduced bit for bit; values of an exactly
+    representable transformation must agree to 1e-12 (an implementation is free
+    to round differently, e.g. by summing absolute times, without violating the
+    statement; genuine edge-rule defects are >= 1e-3)"""
     a = np.asarray(a, float)
     b = np.asarray(b, float)
     if a.shape != b.shape:
         return False
-    if exact:
+    if exact and not values:
         return bool(np.array_equal(a, b))
-    return bool(np.all(np.abs(a - b) <= TOL))
+    return bool(np.all(np.abs(a - b) <= (TIGHT if exact else TOL)))
 
 
 def evaluate(r, trains, edges, name, kw, transforms, be, rank=()):
@@ -111,8 +118,8 @@ def evaluate(r, trains, edges, name, kw, transforms, be, rank=()):
             exp = {"x": [f(v) for v in o["x"]], "v": o["v"]}
             exp.update({k: o[k] for k in arrs})
             ok = _cmp(t["x"], exp["x"], True if kind == "shift" or exact else False)
-            ok = ok and all(_cmp(t[k], o[k], exact) for k in arrs)
-            ok = ok and (t["v"] == o["v"] if exact else abs(t["v"] - o["v"]) <= TOL)
+            ok = ok and all(_cmp(t[k], o[k], exact, values=True) for k in arrs)
+            ok = ok and abs(t["v"] - o["v"]) <= (TIGHT if exact else TOL)
         else:
             exp = {"x": [f(v) for v in o["x"]][::-1]}
             if name == "isi":
